@@ -68,6 +68,24 @@ def Spec.Prog.exec (h : Nat) (env : Nat → R) (p : Prog R) (w : World R) :
     World R × Outcome (List (Rec R)) :=
   Spec.Prog.execFrom h env p w []
 
+/-! ### clear / reset cycles -/
+
+/-- `reset()` on each record of a list, in order -/
+def resetAll : List (Rec R) → World R → List (Rec R) × World R
+  | [], w => ([], w)
+  | r :: rest, w =>
+    let (r', w') := r.reset w
+    let (rs', w'') := resetAll rest w'
+    (r' :: rs', w'')
+
+/-- `Record::variable(x, &list)` for each number of a list, in order, on tape `t` -/
+def mkVars : List R → Nat → World R → List (Rec R) × World R
+  | [], _, w => ([], w)
+  | x :: rest, t, w =>
+    let (r', w') := Rec.mkVar x t w
+    let (rs', w'') := mkVars rest t w'
+    (r' :: rs', w'')
+
 /-! ### forward mode -/
 
 def getDual (ds : List (Dual R)) (a : Nat) : Dual R := ds.getD a (Dual.constant 0)
